@@ -29,6 +29,8 @@ def _features(steps):
     labs = [lab for lab, _ in steps]
     for j, b in enumerate(labs):
         feats.add((b["act"], b["out"]))
+        if "gone" in b["args"]:     # a refused removal that removed nothing / part of the subtree / a whole subtree with children
+            feats.add((b["act"], "gone", min(len(b["args"]["gone"]), 3)))
         for i in range(max(0, j - 3), j):
             a = labs[i]
             sa, sb = a["args"].get("s"), b["args"].get("s")
